@@ -87,6 +87,8 @@ def eq(x, y):
             return False
     elif isinstance(x, (float, np.floating)) and np.isnan(x):
         return isinstance(y, (float, np.floating)) and np.isnan(y)    
+    elif isinstance(x, (np.datetime64, np.timedelta64)) and np.isnat(x): ## NaT is the NaN of dates and durations: NaT == NaT is False too, so a list or dict holding one did not equal its own copy
+        return type(x) == type(y) and bool(np.isnat(y))
     elif isinstance(x, partial):
         return type(x) == type(y) and x.func == y.func and eq(x.keywords, y.keywords) and eq(x.args, y.args)
     elif isinstance(y, (tuple, list, np.ndarray, pd.DataFrame, pd.Series, dict)) and (isinstance(x, str) or not hasattr(x, '__len__')):
